@@ -12,6 +12,7 @@ import (
 	"runtime"
 	"strings"
 	"sync"
+	"time"
 )
 
 // WorkerMain is the body of `check __worker`: jobs on stdin, results on stdout, one JSON per line.
@@ -99,11 +100,33 @@ func startWorker() (*worker, error) {
 	return w, nil
 }
 
+// JobTimeout bounds one generator invocation; a worker that does not answer in time is killed and the
+// job is reported as a hang (the generator must terminate).
+var JobTimeout = 60 * time.Second
+
+var errHang = fmt.Errorf("worker did not answer within the job timeout")
+
 func (w *worker) roundtrip(line []byte) ([]byte, error) {
 	if _, err := w.in.Write(append(line, '\n')); err != nil {
 		return nil, err
 	}
-	return w.out.ReadBytes('\n')
+	type rd struct {
+		bs  []byte
+		err error
+	}
+	ch := make(chan rd, 1)
+	go func() {
+		bs, err := w.out.ReadBytes('\n')
+		ch <- rd{bs, err}
+	}()
+	select {
+	case r := <-ch:
+		return r.bs, r.err
+	case <-time.After(JobTimeout):
+		w.cmd.Process.Kill()
+		<-ch
+		return nil, errHang
+	}
 }
 
 func (w *worker) stop() {
@@ -154,6 +177,12 @@ func (p *Pool) RunAll(jobs []*Job, each func(*Job, *Result)) []*Result {
 					}
 					line, _ := json.Marshal(j)
 					out, err := w.roundtrip(line)
+					if err == errHang {
+						_ = w.cmd.Wait()
+						w = nil
+						r = &Result{ID: j.ID, Outcome: GenHang, Msg: fmt.Sprintf("no result after %v", JobTimeout)}
+						break
+					}
 					if err != nil {
 						// the worker died while running this job
 						_ = w.cmd.Wait()
